@@ -5,7 +5,7 @@
     of [generateAuth] (fix: header taken as a prefix by length). *)
 From Coq Require Import String.
 From Coq Require Import List NArith Arith.
-From Whad Require Import Lib.Bytes Lib.Xor Lib.Aes Lib.Ccm C17.Model C17.Proofs.
+From Whad Require Import Lib.Bytes Lib.Xor Lib.Aes Lib.Ccm C17.Model C17.CcmStar C17.Proofs.
 Import ListNotations.
 Local Open Scope N_scope.
 
@@ -20,7 +20,7 @@ Section C17.
       the packet object or re-dissected from its bytes — and yields the original payload in an
       otherwise unchanged frame ([m] is the code's recomputed MIC field). *)
   Theorem C17_decrypt_encrypt :
-    forall key f, in_scope (f_lvl f) -> length (f_src f) = 8%nat ->
+    forall key f, in_scope (f_lvl f) -> f_ext f = true -> length (f_src f) = 8%nat ->
     exists g, encrypt E key f = Ok g
       /\ (exists m, decrypt E key g = Ok (set_mic m (set_data (plaintext_of f) f), true))
       /\ (exists m, decrypt E key (redissect g) = Ok (set_mic m (set_data (plaintext_of f) f), true)).
@@ -29,34 +29,40 @@ Section C17.
   (** Acceptance is exactly equality of the received MIC with the CCM* tag recomputed over
       nonce = source ‖ counter ‖ security control, the header, and the decrypted payload. *)
   Theorem C17_accept_iff_tag :
-    forall key f, in_scope (f_lvl f) ->
+    forall key f, in_scope (f_lvl f) -> nonce_ok f ->
     status_of (decrypt E key f) = true <->
-    recv_mic f = ccm_tag E (sp_M (params f)) 2 key (gen_nonce (patch f)) (hdr_raw (patch f))
-                         (ccm_keystream_xor E 2 key (gen_nonce (patch f)) (recv_ct f)).
+    recv_mic f = ccm_tag E (sp_M (params f)) (Lf f) key (gen_nonce (patch f)) (hdr_raw (patch f))
+                         (ccm_keystream_xor E (Lf f) key (gen_nonce (patch f)) (recv_ct f)).
   Proof. exact (accept_iff_tag E). Qed.
 
   (** decrypt never raises on these levels, and what it delivers is the CTR decryption *)
   Theorem C17_decrypt_total :
-    forall key f, in_scope (f_lvl f) -> exists r b, decrypt E key f = Ok (r, b).
+    forall key f, in_scope (f_lvl f) -> nonce_ok f -> exists r b, decrypt E key f = Ok (r, b).
   Proof. exact (decrypt_total E). Qed.
 
   Theorem C17_accepted_payload :
-    forall key f r, in_scope (f_lvl f) -> decrypt E key f = Ok (r, true) ->
-    f_data r = ccm_keystream_xor E 2 key (gen_nonce (patch f)) (recv_ct f).
+    forall key f r, in_scope (f_lvl f) -> nonce_ok f -> decrypt E key f = Ok (r, true) ->
+    f_data r = ccm_keystream_xor E (Lf f) key (gen_nonce (patch f)) (recv_ct f).
   Proof. exact (accepted_payload E). Qed.
 
   (** Any change of the integrity code alone is rejected, unconditionally. *)
   Theorem C17_mic_change_rejected :
-    forall key f f', in_scope (f_lvl f) -> in_scope (f_lvl f') ->
+    forall key f f', in_scope (f_lvl f) -> in_scope (f_lvl f') -> nonce_ok f ->
     sp_M (params f) = sp_M (params f') -> gen_nonce (patch f) = gen_nonce (patch f') ->
     hdr_raw (patch f) = hdr_raw (patch f') -> recv_ct f = recv_ct f' -> recv_mic f <> recv_mic f' ->
     status_of (decrypt E key f) = true -> status_of (decrypt E key f') = false.
   Proof. exact (mic_change_rejected E). Qed.
 
-  (** The nonce is source ‖ counter ‖ security control when the 8-byte source is present. *)
+  (** The nonce is source ‖ counter ‖ security control when the 8-byte source is present
+      (extended-nonce flag set); then the CCM length field has L = 2 bytes and AES.new accepts
+      the nonce. *)
   Theorem C17_nonce_layout :
-    forall f, length (f_src f) = 8%nat -> gen_nonce f = f_src f ++ le32 (f_fc f) ++ [ctrl_byte f].
+    forall f, f_ext f = true -> length (f_src f) = 8%nat -> gen_nonce f = f_src f ++ le32 (f_fc f) ++ [ctrl_byte f].
   Proof. exact gen_nonce_src. Qed.
+
+  Theorem C17_nonce_ok_with_source :
+    forall f, f_ext f = true -> length (f_src f) = 8%nat -> nonce_ok f /\ Lf f = 2%nat.
+  Proof. exact nonce_ok_ext. Qed.
 
   (** The authenticated data of an encrypting level is the header, whatever the payload and
       MIC bytes are (this is what the repair established). *)
@@ -82,12 +88,12 @@ Section C17.
       is not a theorem for an arbitrary [E]. *)
   Theorem C17_forgery_is_tag_collision :
     forall key key' f g f',
-    in_scope (f_lvl f) -> encrypt E key f = Ok g ->
-    in_scope (f_lvl f') -> sp_M (params f') = sp_M (params f) -> recv_mic f' = f_mic g ->
+    in_scope (f_lvl f) -> nonce_ok f -> encrypt E key f = Ok g ->
+    in_scope (f_lvl f') -> nonce_ok f' -> sp_M (params f') = sp_M (params f) -> recv_mic f' = f_mic g ->
     status_of (decrypt E key' f') = true ->
-    ccm_tag E (sp_M (params f)) 2 key' (gen_nonce (patch f')) (hdr_raw (patch f'))
-            (ccm_keystream_xor E 2 key' (gen_nonce (patch f')) (recv_ct f'))
-    = ccm_tag E (sp_M (params f)) 2 key (gen_nonce (patch f)) (hdr_raw (patch f)) (plaintext_of f).
+    ccm_tag E (sp_M (params f)) (Lf f') key' (gen_nonce (patch f')) (hdr_raw (patch f'))
+            (ccm_keystream_xor E (Lf f') key' (gen_nonce (patch f')) (recv_ct f'))
+    = ccm_tag E (sp_M (params f)) (Lf f) key (gen_nonce (patch f)) (hdr_raw (patch f)) (plaintext_of f).
   Proof. exact (forgery_is_tag_collision E). Qed.
 
   (** Network layer, all histories of PDUs (replays, reorderings, forged, unsecured ...):
@@ -102,10 +108,10 @@ Section C17.
     forall st ps,
     Forall2 (fun p o => forall svc f', o = UpSecured svc f' ->
                exists f key, p = Secured f /\ In (f_kseq f, key) (keys_of st) /\
-                 (in_scope (f_lvl f) ->
-                  recv_mic f = ccm_tag E (sp_M (params f)) 2 key (gen_nonce (patch f)) (hdr_raw (patch f))
-                                       (ccm_keystream_xor E 2 key (gen_nonce (patch f)) (recv_ct f))
-                  /\ f_data f' = ccm_keystream_xor E 2 key (gen_nonce (patch f)) (recv_ct f)))
+                 (in_scope (f_lvl f) -> nonce_ok f ->
+                  recv_mic f = ccm_tag E (sp_M (params f)) (Lf f) key (gen_nonce (patch f)) (hdr_raw (patch f))
+                                       (ccm_keystream_xor E (Lf f) key (gen_nonce (patch f)) (recv_ct f))
+                  /\ f_data f' = ccm_keystream_xor E (Lf f) key (gen_nonce (patch f)) (recv_ct f)))
             ps (fst (nwk_run E st ps)).
   Proof. exact (nwk_up_has_valid_tag E). Qed.
 
@@ -128,6 +134,98 @@ Section C17.
   Theorem C17_accepted_spec :
     forall st ps, accepted E st ps = events_of (combine ps (fst (nwk_run E st ps))).
   Proof. exact (accepted_spec E). Qed.
+
+  (** ------------------------------------------------------------------------------------
+      EXTENSIONS of the model beyond the property's quantifier ("security levels 5..7 and the
+      on-air level-0 convention").  Not obligations of C17; kept apart and prefixed [C17_ext_].
+      ------------------------------------------------------------------------------------ *)
+
+  (** Levels 1-3 (MIC-32/64/128, payload in clear) — the code after the repair of these
+      levels.  Inverse: encrypt leaves the payload in clear, and decrypt accepts the result
+      (packet object = re-dissected bytes) and returns the frame with its payload. *)
+  Theorem C17_ext_mic_only_decrypt_encrypt :
+    forall key f, mic_scope (f_lvl f) -> f_ext f = true -> length (f_src f) = 8%nat ->
+    exists g, encrypt E key f = Ok g /\ f_data g = f_data f
+      /\ (exists m, decrypt E key g = Ok (set_mic m f, true))
+      /\ redissect g = g.
+  Proof. exact (decrypt_encrypt_mic E E_length). Qed.
+
+  (** accepted iff the last M bytes of the frame are the CCM tag of header ‖ payload with an
+      empty message (the message moved into the authenticated data, as CCM* specifies) *)
+  Theorem C17_ext_mic_only_accept_iff_tag :
+    forall key f, mic_scope (f_lvl f) -> (7 <= length (gen_nonce f))%nat ->
+    status_of (decrypt E key f) = true <->
+    recv_mic_only f = ccm_tag E (sp_M (params f)) (15 - length (gen_nonce f)) key (gen_nonce f) (hdr_raw f ++ f_data f) [].
+  Proof. exact (accept_iff_tag_mic E). Qed.
+
+  Theorem C17_ext_mic_only_is_ccmstar :
+    forall key f, mic_scope (f_lvl f) -> (7 <= length (gen_nonce f))%nat ->
+    status_of (decrypt E key f) = true <->
+    ccmstar_unprotect E false (sp_M (params f)) (15 - length (gen_nonce f)) key (gen_nonce f)
+                      (hdr_raw f) (f_data f) (recv_mic_only f) = Some (f_data f).
+  Proof. exact (accept_is_ccmstar_mic E). Qed.
+
+  (** CCM* itself (CcmStar.v), every level: inverse; MIC-only characterisation *)
+  Theorem C17_ext_ccmstar_inverse :
+    forall enc M L key nonce a m,
+    ccmstar_unprotect E enc M L key nonce a (fst (ccmstar_protect E enc M L key nonce a m))
+                      (snd (ccmstar_protect E enc M L key nonce a m)) = Some m.
+  Proof. exact (ccmstar_unprotect_protect E E_length). Qed.
+
+  Theorem C17_ext_ccmstar_mic_only_iff_tag :
+    forall M L key nonce a c t m,
+    ccmstar_unprotect E false M L key nonce a c t = Some m <->
+    (m = c /\ t = ccm_tag E M L key nonce (a ++ c) []).
+  Proof. exact (ccmstar_mic_only_iff_tag E). Qed.
+
+  (** Level 4 (encryption only) of CCM* is NOT authenticated: every ciphertext, under any
+      header and with any MIC field, is accepted; and it is malleable.  (That is why the
+      property restricts itself to integrity-providing levels.) *)
+  Theorem C17_ext_ccmstar_level4_not_authenticated :
+    forall L key nonce a a' c t t',
+    ccmstar_unprotect E true 0 L key nonce a c t = Some (ccm_keystream_xor E L key nonce c)
+    /\ ccmstar_unprotect E true 0 L key nonce a c t = ccmstar_unprotect E true 0 L key nonce a' c t'.
+  Proof. exact (ccmstar_level4_not_authenticated E). Qed.
+
+  Theorem C17_ext_ccmstar_level4_malleable :
+    forall L key nonce a c d t, length d = length c ->
+    ccmstar_unprotect E true 0 L key nonce a (xor_bytes c d) t
+    = option_map (fun p => xor_bytes p d) (ccmstar_unprotect E true 0 L key nonce a c t).
+  Proof. exact (ccmstar_level4_malleable E E_length). Qed.
+
+  (** What the CODE does at level 4: it does not implement it — AES.new(mac_len=0) raises
+      ValueError in encrypt and in decrypt for every key and frame (so nothing unauthenticated
+      is ever accepted at that level, and no inverse exists). *)
+  Theorem C17_ext_level4_unsupported :
+    forall key f, f_lvl f = 4 ->
+    encrypt E key f = Raise "ValueError"%string /\ decrypt E key f = Raise "ValueError"%string.
+  Proof. exact (level4_unsupported E). Qed.
+
+  (** Frames WITHOUT the extended-nonce flag: generateNonce takes raw(security header)[5:13],
+      i.e. key sequence number (if present), payload and MIC bytes, as the "source". *)
+  Theorem C17_ext_nonce_without_extended_source :
+    forall f, f_ext f = false ->
+    gen_nonce f = firstn 8 ((if f_kt f =? 1 then [f_kseq f] else []) ++ f_data f ++ f_mic f)
+                  ++ le32 (f_fc f) ++ [ctrl_byte f].
+  Proof. exact gen_nonce_no_ext. Qed.
+
+  (** APSManager.decrypt / on_nlde_data: a secured APS frame goes up only if
+      ApplicationSubLayerCryptoManager accepted it under a key of apsDeviceKeyPairSet
+      (hash_key input chosen by the key identifier) ... *)
+  Theorem C17_ext_aps_up_authentic :
+    forall st p svc f', aps_step E st p = AUpSecured svc f' ->
+    exists f kp inp, p = ApsSecured f /\ In kp (a_kps st) /\ aps_input (f_kt f) = Some inp
+                     /\ decrypt E (aps_key E (kp_key kp) inp) f = Ok (f', true).
+  Proof. exact (aps_up_authentic E). Qed.
+
+  (** ... and OBSERVATION: the APS receive path keeps no counter (incoming_frame_counter of the
+      key pairs is never read or written), so after any history a frame that is accepted is
+      accepted again, with the same result, when replayed.  Not a finding: the freshness
+      sentence of the property is about the network layer. *)
+  Theorem C17_ext_aps_no_freshness :
+    forall st before f o, aps_step E st (ApsSecured f) = o ->
+    aps_run E st (before ++ [ApsSecured f; ApsSecured f]) = aps_run E st before ++ [o; o].
+  Proof. exact (aps_no_freshness E). Qed.
 End C17.
 
 (** KNOWN FINDING aps-data-request-secured-raises.  FULL STATEMENT for the application-layer
@@ -150,18 +248,41 @@ Proof. exact encrypt_packet_present. Qed.
 (** The defect that was repaired (kept as a statement about the pre-repair transcription
     [gen_auth_replace]): with E = AES-128 the code rejected a frame it had just encrypted. *)
 Theorem C17_pre_repair_round_trip_refuted :
-  exists key f, f_lvl f = 5 /\ length (f_src f) = 8%nat /\
+  exists key f, f_lvl f = 5 /\ f_ext f = true /\ length (f_src f) = 8%nat /\
     exists g, encrypt_old aes128_enc key f = Ok g /\
               status_of (decrypt_old aes128_enc key (redissect g)) = false.
 Proof. exact pre_repair_round_trip_refuted. Qed.
 
+(** EXTENSION, second repair (integrity-only levels): before it, the level-1 payload 11 left
+    encrypt as ciphertext and the frame was rejected by decrypt. *)
+Theorem C17_ext_pre_repair_mic_only_refuted :
+  exists key f, f_lvl f = 1 /\ f_ext f = true /\ length (f_src f) = 8%nat /\
+    exists g, encrypt_v1 aes128_enc key f = Ok g /\ f_data g <> f_data f /\
+              status_of (decrypt_v1 aes128_enc key (redissect g)) = false.
+Proof. exact pre_repair_mic_only_refuted. Qed.
+
+(** EXTENSION, KNOWN FINDING no-extended-nonce-source-from-payload.  FULL STATEMENT of the
+    inverse without the extended-nonce hypothesis (refuted by the faithful model; the part that
+    holds is C17_decrypt_encrypt, whose hypothesis [f_ext f = true] is exactly the complement). *)
+Definition C17_ext_decrypt_encrypt_any_nonce_statement : Prop :=
+  forall E key f, in_scope (f_lvl f) ->
+  exists g, encrypt E key f = Ok g /\ status_of (decrypt E key (redissect g)) = true.
+
+Theorem C17_ext_no_extended_nonce_round_trip_refuted :
+  exists key f, f_lvl f = 5 /\ f_ext f = false /\
+    exists g, encrypt aes128_enc key f = Ok g /\
+              status_of (decrypt aes128_enc key (redissect g)) = false.
+Proof. exact no_extended_nonce_round_trip_refuted. Qed.
+
 (** Non-vacuity (E = AES-128): the same witness round-trips with the repaired code, a one-bit
     change of its header is rejected, and a replay is dropped by the network layer. *)
 Example C17_nonvacuous :
-  in_scope 5 /\ length (f_src (witness_frame 5 [0x00])) = 8%nat /\
-  exists g, encrypt aes128_enc witness_key (witness_frame 5 [0x00]) = Ok g /\
+  in_scope 5 /\ mic_scope 1 /\ length (f_src (witness_frame 5 true [0x00])) = 8%nat /\
+  (exists g1, encrypt aes128_enc witness_key (witness_frame 1 true [0x11]) = Ok g1 /\ f_data g1 = [0x11] /\
+     status_of (decrypt aes128_enc witness_key (redissect g1)) = true) /\
+  exists g, encrypt aes128_enc witness_key (witness_frame 5 true [0x00]) = Ok g /\
     status_of (decrypt aes128_enc witness_key (redissect g)) = true /\
-    status_of (decrypt aes128_enc witness_key (set_lvl 5 (mkFrame [0x48;0x02;0x00;0x00;0x8a;0x5c;0x1e;0x5c] 0 1 5 0xe1
+    status_of (decrypt aes128_enc witness_key (set_lvl 5 (mkFrame [0x48;0x02;0x00;0x00;0x8a;0x5c;0x1e;0x5c] 0 1 5 0xe1 true
                  (f_src g) 1 (f_data g) (f_mic g)))) = false /\
     map (fun o => match o with UpSecured _ _ => true | _ => false end)
         (fst (nwk_run aes128_enc nv_state [Secured g; Secured g])) = [true; false] /\
